@@ -1119,7 +1119,7 @@ def gen_history_cases(seed, count, maxops=40):
     return cases
 
 
-WS = [' ', '  ', '\n', '\t', ' \n ', '/* c */', ' /* x\ny **/ ', '\n\n', '']
+WS = [' ', '  ', '\n', '\t', ' \n ', '/* c */', ' /* x\ny **/ ', '\n\n', '', '/*/ c */', '/**/', '/*//*/', '/***/', '/* / * */']
 
 
 def gen_descr_ast(r):
